@@ -67,6 +67,32 @@ Proof.
       destruct (t_mkdir (j :: r') true newdir) as [c' x]. cbn [fst snd] in *. congruence.
 Qed.
 
+(** a descriptor session answers an error only if its file could not be opened *)
+Lemma t_fd_later_ok acts : forall p pos cur t outs, is_ok (snd (t_fd p false pos cur acts t outs)) = true.
+Proof.
+  induction acts as [|a r IH]; intros p pos cur t outs.
+  - cbn [t_fd]. destruct (tnav p (tg_fseg false pos cur) t) as [t' x]. destruct x; reflexivity.
+  - destruct a; cbn [t_fd]; try apply IH.
+    destruct (tnav p (tg_fseg false pos cur) t) as [t' x]. destruct x; apply IH.
+Qed.
+Lemma tg_fseg_err fr pos seg nd0 : is_ok (snd (tg_fseg fr pos seg nd0)) = false -> fst (tg_fseg fr pos seg nd0) = nd0.
+Proof.
+  unfold tg_fseg. destruct nd0; [|reflexivity]. destruct (fr || seg_dirty seg); cbn; discriminate.
+Qed.
+Lemma t_fd_err_unchanged acts : forall p pos cur t outs, wfn t ->
+  is_ok (snd (t_fd p true pos cur acts t outs)) = false -> fst (t_fd p true pos cur acts t outs) = t.
+Proof.
+  induction acts as [|a r IH]; intros p pos cur t outs Hw.
+  - cbn [t_fd]. pose proof (tnav_err_unchanged p (tg_fseg true pos cur) t Hw (fun n _ => tg_fseg_err _ _ _ n)) as H.
+    destruct (tnav p (tg_fseg true pos cur) t) as [t' x]. cbn [fst snd] in H.
+    destruct x; cbn [fst snd is_ok]; try discriminate. exact H.
+  - destruct a; cbn [t_fd]; try (apply IH; exact Hw).
+    pose proof (tnav_err_unchanged p (tg_fseg true pos cur) t Hw (fun n _ => tg_fseg_err _ _ _ n)) as H.
+    destruct (tnav p (tg_fseg true pos cur) t) as [t' x]. cbn [fst snd] in H.
+    destruct x; cbn [fst snd is_ok]; try discriminate; try exact H.
+    intro E. rewrite t_fd_later_ok in E. discriminate.
+Qed.
+
 Definition is_mv (o : op) : bool := match o with OMv _ _ _ => true | _ => false end.
 
 (** C19_failed_unchanged (all operations but Mv): an operation that answers an error leaves
@@ -97,6 +123,7 @@ Proof.
   - intros _. apply tnav_query; [exact Hw|]. intros nd0; destruct nd0; reflexivity.
   - intros _. apply tnav_query; [exact Hw|]. intros nd0; destruct nd0; reflexivity.
   - intros _. apply tnav_query; [exact Hw|]. intros nd0; destruct nd0; reflexivity.
+  - apply t_fd_err_unchanged. exact Hw.
 Qed.
 
 (** queries never change the tree *)
